@@ -2,9 +2,10 @@
 
 `c13` (native rep.rs): the same findings rendered from fresh HashMap instances, permuted insertion orders, child processes
 must give byte-identical text equal to the canonical rendering.
-Plus the directory contract `c03` (the findings handed to the renderer do not depend on the listing order: every
-files / sub-directory interleaving of analyze_dir yields the union of the per-file results) -- a run whose findings depend on
-the order in which read_dir lists the entries gives different reports for the same directory content."""
+Plus `c13-dir` (native dirs_c13.rs), end to end: the same directory content materialised in 4 (quick) / 6 (thorough) copies that
+differ only in creation order (so that read_dir lists them differently: observed, not assumed), analysed by the real analyze_dir
+with the patterns in declaration / reversed / shuffled order, rendered by the real generate_*_report, repeated in-process and in
+a fresh process: all texts must be byte-identical."""
 from .. import driver as D
 from . import bounded
 
@@ -18,14 +19,8 @@ def run(tier, seed):
         return vd.finish({"level": "exploration", "coverage": {"evaluations": 1, "distinct_nontrivial": 2, "rule": "native harness did not build", "samples": ["-"]}})
     nat = D.run_native(binary, "c13", tier, seed)
     bounded.add_native_violations(vd, nat, "report text depends only on the set of findings (canonical rendering)")
-    ndir = D.run_native(binary, "c03", tier, seed)
-    for v in ndir.get("violations", []):
-        # only the violation class that is order-dependent by definition (which findings survive depends on which of two
-        # entries of one directory is listed first); any other c03 violation is C03's business, not C13's
-        if "subdir-result-replaces-parent-entries" not in v["key"]:
-            continue
-        vd.add_violation("c13:" + v["key"], "findings depend on the directory listing: " + v["what"], obligation="analyze_dir result == union of the per-file results, for every listing order",
-                         counterexample=v.get("replay"), expected=v.get("expected"), actual=v.get("actual"))
+    ndir = D.run_native(binary, "c13-dir", tier, seed)
+    bounded.add_native_violations(vd, ndir, "same directory content (created in different orders, patterns configured in different orders, fresh process) => byte-identical reports")
     ev = bounded.evidence_from_native(nat, [])
     ev["coverage"]["evaluations"] += int(ndir.get("evaluations", 0))
     ev["coverage"]["directory_part"] = {k: ndir.get(k) for k in ("evaluations", "distinct_nontrivial", "rule", "bound", "wall_s", "cmd")}
